@@ -12,6 +12,7 @@ def fmt(e):
     if c.get('evaluations'): parts.append(f"{c['evaluations']:,} executions")
     if c.get('schedules_executed_twice_and_compared'): parts.append(f"{c['schedules_executed_twice_and_compared']:,} re-run and compared")
     if c.get('merge_audits'): parts.append(f"{c['merge_audits']:,} merge audits")
+    if c.get('interleavings_executed'): parts.append(f"{c['interleavings_executed']:,} interleavings of {c.get('interleaving_operation_pairs',0):,} groups of overlapping operations")
     if c.get('miri_stage_executions'): parts.append(f"{c['miri_stage_executions']:,} under miri")
     if c.get('exhaustive') is False: parts.append("a cap was hit (see evidence)")
     return "; ".join(parts)+f" ({e['wall_s']:.0f} s)"
